@@ -78,8 +78,9 @@ def r2(ctx):
     fields = {"mus": "stacked_data_mean", "thetas": "inverse_covariance", "log_det_thetas": "log_determinant"}
     for pname, field in fields.items():
         t = ba.get(pname)
-        inner = t.args[0] if isinstance(t, App) and t.fn in ("numpy.asarray", "numpy.array") and t.args else t
-        ok = isinstance(inner, Comp) and not inner.conds and inner.elt == Attr(Idx(Attr(m, "clusters"), (inner.var,)), field) \
+        plain = isinstance(t, App) and t.fn in ("numpy.asarray", "numpy.array") and len(t.args) == 1 and not t.kw
+        inner = t.args[0] if plain else t
+        ok = (plain or isinstance(t, Comp)) and isinstance(inner, Comp) and not inner.conds and inner.elt == Attr(Idx(Attr(m, "clusters"), (inner.var,)), field) \
             and inner.iter == Range(0, tm.length(Attr(m, "clusters")))
         ctx.check(ok, wr, f"`{pname}`[k] is cluster k's {field}", role=f"wrapper:{pname}",
                   expected=f"asarray([c.{field} for c in model.clusters])", found=str(t)[:140])
@@ -205,3 +206,10 @@ def r6(ctx):
     from . import c06
     c06.r1(ctx)
     c06.r2(ctx)
+
+
+@rule("C05", "R7", "AGREE", "the reported MRF of cluster k is the very matrix points are scored against (train_inverse, unmodified)")
+def r7(ctx):
+    from . import c04, c03
+    c04.r5(ctx)     # markov_random_fields[k] = state.clusters[k].train_inverse
+    c03.r4(ctx)     # train_inverse is the (filtered) optimiser result; nothing filters it again later
